@@ -161,9 +161,14 @@ func (s *jwtSigner) Hash() []byte {
 	s.mut.RUnlock()
 
 	hash := sha256.New()
+	// the separators ensure that different settings cannot result in the same sequence of bytes
+	// (like the key id a and the issuer ES256x compared to the key id aES256 and the issuer x)
 	hash.Write(stringx.ToBytes(jwk.KeyID))
+	hash.Write([]byte{0})
 	hash.Write(stringx.ToBytes(jwk.Algorithm))
+	hash.Write([]byte{0})
 	hash.Write(stringx.ToBytes(s.iss))
+	hash.Write([]byte{0})
 
 	// the key id is not sufficient to identify the key: after a reload of the key store, another
 	// key may be available under the same id, and the tokens issued (and cached) using the previous
